@@ -7,7 +7,8 @@ from contracts import modifications as M
 from contracts import links as LK
 
 P_UNITS = [PUnit("modification-target-by-resid", M.CONTRACTS, M.REG),
-           LUnit("rejected-link-changes-nothing", LK.lemma_veto_before_effect)]
+           LUnit("rejected-link-changes-nothing", LK.lemma_veto_before_effect),
+           LUnit("modification-frame", M.lemma_mod_frame)]
 
 
 def build(tier, seed):
